@@ -1,6 +1,23 @@
-//! C17 — not built yet.
+//! C17 — memory safety and storage invariants of the hand-managed integer: BFS over all
+//! operation histories of a pool of live values (capacity in the state key), tracking-allocator
+//! monitors on every transition, storage invariants and reference value in every state.
+
 use crate::core::Ctx;
+use crate::explore::{explore, Cfg};
 
 pub fn run(ctx: &mut Ctx) {
-    ctx.machinery("check C17 is not built yet");
+    ctx.rule = "breadth-first exploration of all operation histories (alphabet: clone_from, clone-assign, mem::take, x op= &y / y.clone() / &x.clone(), x = &x op &y for + - * / % & | ^, shifts, neg, pow, byte/word/parts round trips, set/clear bit, split_bits, clear_high_bits, ones, re-initialisation, reading a static value, IBig<->UBig moves) over a pool of 2 IBig + 1 UBig from 3 start pools, up to the stated depth and word bound; a state = (sign, words, exact capacity) of every slot; every state is checked for: value == num_bigint mirror, <=2 words inline, heap values >= 3 words without leading zero word, len <= capacity <= compact bound, zero never negative, capacity field == real allocation size (allocator header), and every transition runs under the tracking allocator (red zones, layout-exact free, double free, write-after-free quarantine) with a leak check after the pool is dropped. non-trivial = transition executed and all invariants evaluated".into();
+    ctx.assume("out-of-bounds *reads* are only caught when the value read influences a result (fresh memory is filled with 0xCD, freed memory with 0xDD)");
+    ctx.assume("the storage probe is the cfg(dashu_verif) hook verif_repr_probe; its capacity is cross-checked against the allocator's own header");
+    let cfg = Cfg {
+        prop: "C17",
+        with_capacity: true,
+        with_order: false,
+        max_words: 12,
+        depth: ctx.pick(3, 4),
+        full_alphabet: !ctx.quick(),
+        max_states_per_level: ctx.pick(60_000, 400_000),
+    };
+    explore(ctx, &cfg);
+    ctx.require_classes("bfs.depth1", &["transition:inline->heap", "transition:heap->inline", "transition:heap-reallocated", "new-state", "pruned:precondition(div by 0 / unsigned underflow)"]);
 }
